@@ -52,6 +52,7 @@ OKEYS_B = {1: 'z', 2: 'w'}
 OKEYS_C = {1: 'm', 2: 'w'}
 PH = 150
 RF = 160
+TB = 170      # a tuple leaf that holds a symbolic dict inside a nested tuple: ((pg.Dict(q=1), 7),)
 SHARED = ['shared', 'plain', 'list']      # the non-symbolic object every pg.Ref leaf points at
 
 
@@ -170,6 +171,8 @@ class Replayer:
       return pg.oneof([1, 2])
     if v == RF:
       return pg.Ref(SHARED)
+    if v == TB:
+      return ((pg.Dict(q=1), 7),)
     if v == 221:
       with pg.allow_writable_accessors(None), pg.as_sealed(None):
         return B.partial()
@@ -310,12 +313,81 @@ class Replayer:
     o.rebind(d, notify_parents=notify_parents, skip_notification=True if skip else None)
 
   def do_Clone(self, n, deep):
-    # clone(deep) and the copy module must coincide: alternate between them
+    # clone(deep), pg.clone and the copy module must coincide: one of them (alternating) is bound to the model, the
+    # others are compared with it right away (same structure, same flags on every node, no shared symbolic node)
     self._clone_count = getattr(self, '_clone_count', 0) + 1
     o = self.obj[n]
-    if self._clone_count % 2 == 0:
-      return copy.deepcopy(o) if deep else copy.copy(o)
-    return o.clone(deep=deep)
+    ways = [lambda: o.clone(deep=deep), lambda: (copy.deepcopy(o) if deep else copy.copy(o)),
+            lambda: pg.clone(o, deep=deep)]
+    k = self._clone_count % len(ways)
+    primary = ways[k]()
+    for j, w in enumerate(ways):
+      if j == k:
+        continue
+      other = w()
+      why = self._copies_differ(primary, other)
+      if why:
+        raise Divergence('flags' if 'flag' in why else 'content',
+                         f'clone(deep={deep}) / copy.{"deepcopy" if deep else "copy"} / pg.clone do not coincide: {why}')
+    if primary.sym_path:
+      raise Divergence('path', f'a copy is a root of its own but reports sym_path {str(primary.sym_path)!r}')
+    why = self._shares_symbolic(o, primary)      # deep and shallow clones both copy every symbolic container
+    if why:
+      raise Divergence('oneplace', f'clone(deep={deep}) shares a symbolic node with the original: {why}')
+    return primary
+
+  @classmethod
+  def _copies_differ(cls, a, b, path='') -> Optional[str]:
+    """Structural + flag comparison of two copies of one value (both are outside the model)."""
+    if isinstance(a, pg.Symbolic) != isinstance(b, pg.Symbolic) or type(a) is not type(b):
+      return f'{path}: {type(a).__name__} vs {type(b).__name__}'
+    if isinstance(a, (pg.hyper.OneOf, pg.Ref)) or not isinstance(a, pg.Symbolic):
+      if isinstance(a, tuple):
+        if len(a) != len(b):
+          return f'{path}: tuple lengths differ'
+        for i, (x, y) in enumerate(zip(a, b)):
+          why = cls._copies_differ(x, y, f'{path}({i})')
+          if why:
+            return why
+        return None
+      return None if pg.eq(a, b) else f'{path}: {a!r} vs {b!r}'
+    if a is b:
+      return f'{path}: one object in both copies'
+    if bool(a.is_sealed) != bool(b.is_sealed):
+      return f'{path}: sealed flag {a.is_sealed} vs {b.is_sealed}'
+    if isinstance(a, (pg.Dict, pg.List)) and bool(a.accessor_writable) != bool(b.accessor_writable):
+      return f'{path}: accessor_writable flag {a.accessor_writable} vs {b.accessor_writable}'
+    if bool(a.allow_partial) != bool(b.allow_partial):
+      return f'{path}: allow_partial flag {a.allow_partial} vs {b.allow_partial}'
+    if isinstance(a, (pg.Dict, pg.List)) and (a.value_spec is None) != (b.value_spec is None):
+      return f'{path}: value spec binding (flag) differs'
+    ia, ib = list(a.sym_items()), list(b.sym_items())
+    if [k for k, _ in ia] != [k for k, _ in ib]:
+      return f'{path}: keys {[k for k, _ in ia]} vs {[k for k, _ in ib]}'
+    for (k, x), (_, y) in zip(ia, ib):
+      why = cls._copies_differ(x, y, f'{path}.{k}')
+      if why:
+        return why
+    return None
+
+  @classmethod
+  def _shares_symbolic(cls, a, b, path='') -> Optional[str]:
+    """A symbolic container reachable from both values (through symbolic members or tuples)."""
+    if isinstance(a, (pg.hyper.OneOf, pg.Ref)):
+      return None
+    if isinstance(a, pg.Symbolic) and isinstance(b, pg.Symbolic):
+      if a is b:
+        return path or '<root>'
+      for (k, x), (_, y) in zip(a.sym_items(), b.sym_items()):
+        why = cls._shares_symbolic(x, y, f'{path}.{k}')
+        if why:
+          return why
+    elif isinstance(a, tuple) and isinstance(b, tuple):
+      for i, (x, y) in enumerate(zip(a, b)):
+        why = cls._shares_symbolic(x, y, f'{path}({i})')
+        if why:
+          return why
+    return None
 
   def do_JsonRoundTrip(self, n):
     return pg.from_json(pg.to_json(self.obj[n]), allow_partial=True)
@@ -388,6 +460,9 @@ class Replayer:
       return pyv == pg.MISSING_VALUE
     if specv == PH:
       return isinstance(pyv, pg.hyper.OneOf)
+    if specv == TB:
+      return (isinstance(pyv, tuple) and len(pyv) == 1 and isinstance(pyv[0], tuple) and len(pyv[0]) == 2
+              and isinstance(pyv[0][0], pg.Dict) and dict(pyv[0][0]) == {'q': 1} and pyv[0][1] == 7)
     if specv == RF:
       # a copy of a reference must still point at the very same object
       return isinstance(pyv, pg.Ref) and pyv.value is SHARED
@@ -634,6 +709,8 @@ class Replayer:
         return pg.oneof([1, 2])
       if v == RF:
         return pg.Ref(SHARED)
+      if v == TB:
+        return ((pg.Dict(q=1), 7),)
       return v
 
     def build(n):
